@@ -55,6 +55,10 @@ def run(ctx):
             if not ss:
                 raise verif.MachineryError("TLC produced no schedules for %s, see %s" % (c, r["dir"]))
             nsched[c] = len(ss)
+            if not th and kind == "sched" and len(ss) > 1200:
+                import random
+                ss = random.Random(ctx.seed).sample(ss, 1200)   # quick tier: seeded sample of the exhaustive set
+                nsched[c + "_replayed"] = len(ss)
             for s in ss:
                 fh.write(json.dumps({"src": c, "k": kk, "n": nn, "sched": list(s)}) + "\n")
     out = ctx.go_test("internal/backend/sema", "^TestVerif_C37$", timeout=2400, env={"VERIF_VECTORS": vec})
